@@ -1,3 +1,4 @@
+import VtModel.FmtBytes
 /-
 Model for C12 (interrupted writes).
 
@@ -25,10 +26,9 @@ Out of model: `BufWriter` / page-cache reordering below the trait level (the mod
 bytes of earlier operations are on disk before those of later ones).
 -/
 namespace VtModel.Crash
+open VtModel.Fmt (Bytes beDec beEnc leDec leEnc)
 
-abbrev Bytes := List Nat
-
-def zeros (n : Nat) : Bytes := List.replicate n 0
+def zeros (n : Nat) : Bytes := List.replicate n (0 : UInt8)
 
 /-- positional write; a gap between the end of the file and `pos` is filled with zeros -/
 def writeAt (file : Bytes) (pos : Nat) (b : Bytes) : Bytes :=
@@ -100,20 +100,7 @@ def crashWith (states : List W) (ops : List Op) (i k : Nat) : Bytes :=
 
 /-! ### integers -/
 
-def beDec (bs : Bytes) : Nat := bs.foldl (fun acc b => acc * 256 + b) 0
-
-/-- big-endian encoding in `n` bytes -/
-def beEnc : Nat → Nat → Bytes
-  | 0, _ => []
-  | n + 1, v => beEnc n (v / 256) ++ [v % 256]
-
-def leDec : Bytes → Nat
-  | [] => 0
-  | b :: bs => b + 256 * leDec bs
-
-def leEnc : Nat → Nat → Bytes
-  | 0, _ => []
-  | n + 1, v => (v % 256) :: leEnc n (v / 256)
+-- `beDec`, `beEnc`, `leDec`, `leEnc`: `VtModel.Fmt` (shared with the container models)
 
 /-- `read_range` of `DataReaderBlob` / `DataReaderFile`: an error when the range is not inside the file -/
 def slice (file : Bytes) (off len : Nat) : Option Bytes :=
@@ -132,7 +119,7 @@ abbrev Dec := Comp → Bytes → Option Bytes
 /-- "versatiles_v02" -/
 def magicV : Bytes := [118, 101, 114, 115, 97, 116, 105, 108, 101, 115, 95, 118, 48, 50]
 
-def fmtOkV (c : Nat) : Bool :=
+def fmtOkV (c : UInt8) : Bool :=
   c == 0x00 || c == 0x10 || c == 0x11 || c == 0x12 || c == 0x13 || c == 0x14 ||
   c == 0x20 || c == 0x21 || c == 0x22 || c == 0x23
 
@@ -165,7 +152,7 @@ def openV (dec : Dec) (file : Bytes) : Option OpenedV :=
   (slice file 0 66).bind fun h =>
   if h.take 14 ≠ magicV then none else
   if !fmtOkV ((h.drop 14).headD 0) then none else
-  (compOfCodeV ((h.drop 15).headD 0)).bind fun comp =>
+  (compOfCodeV ((h.drop 15).headD 0).toNat).bind fun comp =>
   let metaOff := beDec ((h.drop 34).take 8)
   let metaLen := beDec ((h.drop 42).take 8)
   let blkOff := beDec ((h.drop 50).take 8)
@@ -223,9 +210,9 @@ def openP (dec : Dec) (file : Bytes) : Option OpenedP :=
   let leafOff := leDec ((h.drop 40).take 8)
   let leafLen := leDec ((h.drop 48).take 8)
   let dataOff := leDec ((h.drop 56).take 8)
-  let ic := (h.drop 97).headD 0
-  let tc := (h.drop 98).headD 0
-  let tt := (h.drop 99).headD 0
+  let ic := ((h.drop 97).headD 0).toNat
+  let tc := ((h.drop 98).headD 0).toNat
+  let tt := ((h.drop 99).headD 0).toNat
   if ic > 4 ∨ tc > 4 ∨ tt > 5 then none else            -- `from_u8` errors in `deserialize`
   (compOfCodeP ic).bind fun icomp =>
   (slice file metaOff metaLen).bind fun m =>
@@ -271,7 +258,7 @@ def unhex (s : String) : Option Bytes :=
       let x ← unhexDigit a
       let y ← unhexDigit b
       let r ← go rest
-      pure ((x * 16 + y) :: r)
+      pure (UInt8.ofNat (x * 16 + y) :: r)
   go s.toList
 
 def tableDec (tab : List Bytes) : Dec := fun c b =>
